@@ -3,7 +3,7 @@ SPEC = {
     "id": "C12",
     "coq_targets": ["theories/StdPath/Props_C12.vo", "theories/StdPath/Cases_C12.vo", "theories/StdPath/Findings.vo"],
     "props": "theories/StdPath/Props_C12.v",
-    "harness": [{"bin": "h_path_views", "n": {"quick": 300, "thorough": 12000}, "known_bits": {}}],
+    "harness": [{"bin": "h_path_views", "n": {"quick": 300, "thorough": 6000}, "known_bits": {}}],
     "rule": "standard-path byte strings built outside the implementation: directed witnesses (the property's (2,1,0)/CurrHF 5 shape, > 64 hop fields, zero-length first/middle segments), every shape with <= 3 hops per segment (including empty segments anywhere) x pointer values (quick: every CurrHF up to two past the end and 63, CurrINF in {0, last valid, first invalid, 3}; thorough: all 64 x 4), random well-formed paths up to 63 hops per segment, random malformed meta headers with random reserved bits, one-hop paths; a case is non-trivial when its case text is new; every operation offered on both representations is run on the view and on the model made from it",
     "assumptions": ["a byte is a number below 256 (bytes_ok), the typing invariant of [u8]", "model fields are within the ranges of their Rust types (path_typed)"],
 }
